@@ -123,6 +123,9 @@ class World:
             out.update(self.field_decl.get(cls, {}))
         return out
 
+    def has_any_contract(self, qualname):
+        return any(q == qualname for (q, _k) in self.contracts)
+
     def find_contract(self, qualname, cls):
         if cls is not None:
             for c in self.repo.mro(cls):
@@ -644,6 +647,12 @@ class World:
             # a helper function of the same module without a contract of its own: part of the body
             eng.inlined.add(fi.qualname)
             return self.inline_call(eng, fi, args, kwargs, selfcls)
+        if c is None and eng.fi is not None and fi.relfile == eng.fi.relfile and fi.cls is not None and fi.cls == eng.fi.cls \
+                and not self.has_any_contract(fi.qualname):
+            # a method of the same class that nobody has put under contract (e.g. a helper introduced by a
+            # change): treated as part of the calling body and reported as inlined
+            eng.inlined.add(fi.qualname + " (uncontracted helper)")
+            return self.inline_call(eng, fi, args, kwargs, selfcls)
         raise OutOfSubset("call to %s (self class %s): no contract and not declared inline" % (fi.qualname, selfcls))
 
     def inline_call(self, eng, fi, args, kwargs, selfcls):
@@ -806,8 +815,7 @@ class World:
                             ty = ty[6:]
                         obj.fields[f] = eng.fresh(ty, "hv_%s_%s" % (obj.name, f))
                         obj.unset.discard(f)
-                    else:
-                        raise OutOfSubset("havoc of undeclared field %s in contract of %s" % (m, fi.qualname))
+                    # a field this (sub)class does not have: nothing to havoc
             else:
                 raise OutOfSubset("modifies clause %r" % m)
 
@@ -830,7 +838,8 @@ class World:
                 except Raised:
                     obj.unset.add(a)
                     return VBool(False)
-                obj.fields[a] = v
+                from .engine import _container_copy
+                obj.fields[a] = _container_copy(v)
                 return VBool(True)
             if getattr(obj, "fresh_alloc", False):
                 return VBool(self.repo.resolve_method(obj.cls, a) is not None)
